@@ -27,6 +27,18 @@
    "none" = absent.  A request id is [kind, n, len]: a prefix of length len of the
    inbound value (kind "inbound") or of the n-th freshly generated id (kind "fresh").
 
+   Option LISTS.  Options are given to the middlewares as a list; what the design promises about a list:
+     - DiscardFromTrace accumulates: cfg.discards patterns, and a request is discarded iff ANY of them
+       matches its path / full method, whatever the position of the matching pattern.  A request says which
+       positions match it (req.dmatch, one boolean per pattern); the same path travels down the chain.
+     - every other option is a setter: the LAST instance of a kind decides, instances of different kinds
+       are independent of each other and of their order (SamplingPercent and MaxSamplingRate are documented
+       as mutually exclusive and never given together).  cfg.layout says how the lists are written:
+       "plain" each option once (id functions, sampling, discards), "rev" the other way round (discards,
+       SampleSize before MaxSamplingRate, id functions last), "dup" every setter twice - first an instance
+       with ANOTHER value that the later one overrides - with the discard patterns spread between them.
+       Nothing in the design depends on the layout.
+
    Where the documentation leaves a choice the specification is nondeterministic:
    0 < percent < 100, the adaptive sampler once the sample size has been reached,
    a ParentSpanID header on a request without TraceID, the captured status of a
@@ -36,7 +48,9 @@ EXTENDS Integers, Sequences, FiniteSets, TLC
 CONSTANTS Deviations,   \* named departures of the code from the design
           Mode,         \* "rid" | "trace" | "capture" | "trace_log": which slice of the option space Init enumerates
           MaxHops, MaxReq, LimitMax, MaxScript,
-          MaxDiscards   \* number of DiscardFromTrace patterns explored by the trace slice (0..MaxDiscards)
+          MaxDiscards,  \* number of DiscardFromTrace patterns explored by the trace slice (0..MaxDiscards)
+          Layouts,      \* ways of writing the option lists explored by the rid and trace slices
+          OptHops       \* ... for chains of up to OptHops servers (longer chains: "plain")
 
 FreshLen == 8           \* shortID(): 6 random bytes, base64 raw url encoding
 
@@ -49,7 +63,7 @@ Usable(v)   == v.kind # "none" /\ v.len > 0          \* Header.Get / MetadataVal
 Tok(p, k)   == p \o ToString(k)
 
 EmptyCtx == [rid |-> NoRid, trace |-> "none", span |-> "none", parent |-> "none"]
-NoWire   == [rid |-> NoRid, ridc |-> NoRid, trace |-> "none", parent |-> "none", dpath |-> FALSE]
+NoWire   == [rid |-> NoRid, ridc |-> NoRid, trace |-> "none", parent |-> "none", dmatch |-> <<>>]
 
 Op(o, v) == [op |-> o, v |-> v]
 Ops == {Op("wh", 200), Op("wh", 404), Op("wh", 500), Op("w", 0), Op("w", 1), Op("w", 3), Op("fl", 0)}
@@ -76,12 +90,22 @@ Transports == {"http", "grpc_unary", "grpc_stream"}
 \*          x-correlation-id, "mixed" X-Correlation-ID.  HTTP header names are case-insensitive (and gRPC
 \*          metadata keys are lower-cased by grpc), so nothing in the design depends on it, nor on the
 \*          spelling the sender used (req.ridSpell).
+\* layout:  how the option lists are written (see the header).  The values a "dup" layout gives first and
+\*          overrides: SamplingPercent(OtherPct(pct)), SampleSize(another size: 1, or 2 when ssize = 1), RequestIDLimitOption(limit + 1),
+\*          UseRequestIDOption(the opposite), RequestIDHeaderOption(a header no request carries), id functions
+\*          that return tokens no prediction contains.
+\* dmatch:  one boolean per DiscardFromTrace pattern, in the order the patterns were given: does pattern i
+\*          match the path (HTTP) / full method (gRPC) of this request
 Spellings == {"canon", "lower", "mixed"}
-Cfg(tr, trust, lim, sm, pct, ss, nd, d, fw, fm, hn) ==
+AllLayouts == {"plain", "rev", "dup"}
+OtherPct(p) == IF p = 100 THEN 0 ELSE 100
+Cfg(tr, trust, lim, sm, pct, ss, nd, d, fw, fm, hn, lay) ==
   [transport |-> tr, trust |-> trust, limit |-> lim, smode |-> sm, pct |-> pct, ssize |-> ss,
-   discards |-> nd, depth |-> d, forward |-> fw, fwdmd |-> fm, hname |-> hn]
-Req(at, l, sp, t, p, dp, sc) ==
-  [ridAt |-> at, ridLen |-> l, ridSpell |-> sp, trace |-> t, parent |-> p, dpath |-> dp, script |-> sc]
+   discards |-> nd, depth |-> d, forward |-> fw, fwdmd |-> fm, hname |-> hn, layout |-> lay]
+Req(at, l, sp, t, p, dm, sc) ==
+  [ridAt |-> at, ridLen |-> l, ridSpell |-> sp, trace |-> t, parent |-> p, dmatch |-> dm, script |-> sc]
+Matches(n) == IF n = 0 THEN {<<>>} ELSE [1..n -> BOOLEAN]
+AnyMatch(m) == \E i \in 1..Len(m) : m[i]
 
 ---------------------------------------------------------------------------
 VARIABLES cfg, reqs,          \* the case
@@ -104,7 +128,7 @@ SamplingSpace ==
   \cup {<<"adaptive", 100, s>> : s \in 1..3}
 
 \* slice "rid": every request-id option x inbound value x chain depth, one request
-RidReq(tr, at, l, sp, t) == Req(at, l, sp, t, FALSE, FALSE, IF tr = "http" THEN PlainScript ELSE <<>>)
+RidReq(tr, at, l, sp, t) == Req(at, l, sp, t, FALSE, <<>>, IF tr = "http" THEN PlainScript ELSE <<>>)
 CustomTrust == {"custom", "on_custom", "custom_off"}
 InitRid ==
   \E tr \in Transports : \E trust \in TrustModes(tr) : \E lim \in 0..LimitMax : \E d \in 1..MaxHops :
@@ -113,23 +137,27 @@ InitRid ==
   \* spellings matter (if at all) where the inbound value sits in the header the options name
   \E hn \in (IF trust \in CustomTrust /\ at = "custom" THEN Spellings ELSE {"canon"}) :
   \E sp \in (IF l > 0 /\ ((at = "custom" /\ trust \in CustomTrust) \/ (at = "std" /\ trust = "on")) THEN Spellings ELSE {"canon"}) :
-    /\ cfg = Cfg(tr, trust, lim, "default", 100, 1, 0, d, fw, FALSE, hn)
+  \* the order of request-id options carries meaning (on_custom / custom_off), so there is no "rev" here
+  \E lay \in (IF d <= OptHops THEN {"plain"} \cup (Layouts \ {"rev"}) ELSE {"plain"}) :
+    /\ cfg = Cfg(tr, trust, lim, "default", 100, 1, 0, d, fw, FALSE, hn, lay)
     /\ reqs = <<RidReq(tr, at, l, sp, t)>>
 
 \* slice "trace": sampling options x discards x chain depth x histories of 1..MaxReq requests
-TraceReqsWith(sc) == {Req("none", 0, "canon", t, p, dp, sc) : t \in BOOLEAN, p \in BOOLEAN, dp \in BOOLEAN}
+\* every subset of the pattern positions matches some request: first only, last only, a middle one, none, several
+TraceReqsWith(sc, nd) == {Req("none", 0, "canon", t, p, dm, sc) : t \in BOOLEAN, p \in BOOLEAN, dm \in Matches(nd)}
 InitTrace ==
   \E tr \in Transports : \E s \in SamplingSpace : \E nd \in 0..MaxDiscards : \E d \in 1..MaxHops : \E n \in 1..MaxReq :
   \E fm \in (IF d = 1 THEN {FALSE} ELSE BOOLEAN) :
-  \E r \in [1..n -> TraceReqsWith(IF tr = "http" THEN PlainScript ELSE <<>>)] :
-    /\ cfg = Cfg(tr, "none", 0, s[1], s[2], s[3], nd, d, FALSE, fm, "canon")
+  \E lay \in (IF d <= OptHops THEN {"plain"} \cup Layouts ELSE {"plain"}) :
+  \E r \in [1..n -> TraceReqsWith(IF tr = "http" THEN PlainScript ELSE <<>>, nd)] :
+    /\ cfg = Cfg(tr, "none", 0, s[1], s[2], s[3], nd, d, FALSE, fm, "canon", lay)
     /\ reqs = r
 
 \* slice "capture": every handler script up to MaxScript operations (HTTP)
 InitCapture ==
   \E d \in 1..(IF MaxHops > 2 THEN 2 ELSE MaxHops) : \E sc \in Scripts(MaxScript) :
-    /\ cfg = Cfg("http", "none", 0, "default", 100, 1, 0, d, FALSE, FALSE, "canon")
-    /\ reqs = <<Req("none", 0, "canon", FALSE, FALSE, FALSE, sc)>>
+    /\ cfg = Cfg("http", "none", 0, "default", 100, 1, 0, d, FALSE, FALSE, "canon", "plain")
+    /\ reqs = <<Req("none", 0, "canon", FALSE, FALSE, <<>>, sc)>>
 
 Idle == /\ q = 0 /\ hop = 0 /\ wire = NoWire
         /\ ctx = [h \in Hops |-> EmptyCtx] /\ scount = [h \in Hops |-> 0]
@@ -148,7 +176,7 @@ InboundWire(r) ==
    ridc |-> IF r.ridAt = "custom" THEN InRid(r.ridLen) ELSE NoRid,
    trace |-> IF r.trace THEN "T0" ELSE "none",
    parent |-> IF r.parent THEN "P0" ELSE "none",
-   dpath |-> r.dpath]
+   dmatch |-> r.dmatch]
 
 Arrive == /\ pc = "idle" /\ q < Len(reqs)
           /\ q' = q + 1 /\ hop' = 1 /\ pc' = "rid"
@@ -163,8 +191,10 @@ TrustedInbound ==
   \* the lookup is case-insensitive: the spelling of the configured name and of the sender's header do not matter
   ELSE IF "rid.custom_header_case_sensitive" \in Deviations /\ th = "custom" /\ cfg.hname # "canon" THEN NoRid
   ELSE IF th = "std" THEN wire.rid ELSE IF th = "custom" THEN wire.ridc ELSE NoRid
+\* the hypothetical slip "the first instance of a setter decides" (layout "dup" gives another value first)
+FirstWins == cfg.layout = "dup" /\ "options.first_setter_wins" \in Deviations
 Truncate(v, lim) ==
-  LET cut == IF "rid.truncate_off_by_one" \in Deviations THEN lim + 1 ELSE lim IN
+  LET cut == IF "rid.truncate_off_by_one" \in Deviations \/ FirstWins THEN lim + 1 ELSE lim IN
   IF lim > 0 /\ v.len > cut THEN [v EXCEPT !.len = cut] ELSE v
 
 RidTrusted == /\ pc = "rid" /\ Usable(TrustedInbound)
@@ -178,13 +208,18 @@ RidFresh   == /\ pc = "rid" /\ ~Usable(TrustedInbound)
               /\ UNCHANGED <<cfg, reqs, q, hop, wire, scount, nT, nS, k, cap, rec, hops, fwds, caps>>
 
 \* ---- trace middleware ----
-Discarded == cfg.discards > 0 /\ wire.dpath
+\* discarded iff ANY pattern matches; the named slips let one position decide
+Discarded == LET m == wire.dmatch IN
+             IF "trace.last_discard_pattern_wins" \in Deviations THEN Len(m) > 0 /\ m[Len(m)]
+             ELSE IF "trace.first_discard_pattern_only" \in Deviations THEN Len(m) > 0 /\ m[1]
+             ELSE AnyMatch(m)
+EffPct == IF FirstWins THEN OtherPct(cfg.pct) ELSE cfg.pct
 Bump == scount' = [scount EXCEPT ![hop] = IF @ < cfg.ssize THEN @ + 1 ELSE @]
 MaySample == CASE cfg.smode = "default"  -> TRUE
-               [] cfg.smode = "percent"  -> cfg.pct > 0
+               [] cfg.smode = "percent"  -> EffPct > 0
                [] cfg.smode = "adaptive" -> TRUE
 MaySkip   == CASE cfg.smode = "default"  -> FALSE
-               [] cfg.smode = "percent"  -> cfg.pct < 100 \/ "sampler.random_at_100" \in Deviations
+               [] cfg.smode = "percent"  -> EffPct < 100 \/ "sampler.random_at_100" \in Deviations
                [] cfg.smode = "adaptive" -> scount[hop] + 1 >= cfg.ssize \/ "sampler.adaptive_skips_early" \in Deviations     \* every request sampled until the sample size is reached
 
 TraceKeep == /\ pc = "trace" /\ wire.trace # "none"
@@ -231,7 +266,7 @@ Forwarded ==
    ridc |-> IF cfg.forward /\ fh = "custom" THEN c.rid ELSE IF allmd THEN wire.ridc ELSE NoRid,
    trace |-> IF cfg.fwdmd THEN wire.trace ELSE "none",
    parent |-> IF cfg.fwdmd THEN wire.parent ELSE "none",
-   dpath |-> wire.dpath]
+   dmatch |-> wire.dmatch]       \* the same path / method is called downstream
 \* tracedDoer.Do / setTrace: the CURRENT trace and span replace whatever is there
 Outgoing ==
   LET c == ctx[hop]
@@ -330,14 +365,19 @@ UntracedIsClean == \A i \in HopIdx : ~Traced(hops[i]) => hops[i].span = "none" /
 \* sampling decisions: h was decided by the sampler iff no trace id arrived
 Sampling0And100Exact == \A i \in HopIdx :
   LET h == hops[i]
-      disc == cfg.discards > 0 /\ h.in.dpath IN
+      disc == AnyMatch(h.in.dmatch) IN
   h.in.trace = "none" =>
     /\ (cfg.smode = "percent" /\ cfg.pct = 0 => ~Traced(h))
     /\ ((cfg.smode = "default" \/ (cfg.smode = "percent" /\ cfg.pct = 100)) /\ ~disc => Traced(h))
     /\ (disc => ~Traced(h))
     /\ (Traced(h) => h.trace \notin {"T0", "P0"} /\ \A j \in 1..(i - 1) : hops[j].in.trace = "none" /\ hops[j].q # h.q => hops[j].trace # h.trace)
 \* adaptive sampling: a server samples everything until its sampler has been consulted sample-size times
-Consulted(h) == h.in.trace = "none" /\ ~(cfg.discards > 0 /\ h.in.dpath)
+\* a request without trace id is discarded iff at least one pattern matches it - whichever one
+DiscardAnyPattern == \A i \in HopIdx :
+  LET h == hops[i] IN
+  /\ Len(h.in.dmatch) = cfg.discards
+  /\ (h.in.trace = "none" /\ AnyMatch(h.in.dmatch)) => ~Traced(h)
+Consulted(h) == h.in.trace = "none" /\ ~AnyMatch(h.in.dmatch)
 AdaptiveWarmup == \A i \in HopIdx :
   LET h == hops[i] IN
   (cfg.smode = "adaptive" /\ Consulted(h)
